@@ -167,7 +167,9 @@ def run_real(ctx, cases):
     binary = vlib.build("area_replay", "area_replay.cpp", opt="-O0")
     inp = [{"id": c["id"], "ways": c["ways"], "roles": c["roles"], "variants": c["variants"],
             **({"tile": {"n": c["tile"]["n"], "dx": c["tile"]["dx"]}} if "tile" in c else {})} for c in cases]
-    res = vlib.replay_cases(binary, inp, timeout=1800, nproc=min(8, vlib.NCPU))
+    # per-case watchdog: the assembler's ring joining is exponential for some chains (finding F10b); without it one such
+    # case costs the whole shard's time limit several times over
+    res = vlib.replay_cases(binary, inp, timeout=1800, nproc=min(8, vlib.NCPU), env={"VH_CASE_TIMEOUT": "30"})
     if len(res) != len(cases):
         raise vlib.ModelFailure("harness returned %d results for %d cases" % (len(res), len(cases)))
     return {r["id"]: r for r in res}
@@ -264,6 +266,8 @@ def process(ctx, cases, tag):
         if not r.get("ok") or "crash" in r:
             what = ("real assembler %s: %s" % (r.get("crash", "failed"), (r.get("stderr") or r.get("note") or "")[:700]))
             tile = ("tile=n%d/touch%d motif_rings=%d " % (c["tile"]["n"], c["tile"]["ntouch"], c.get("nrings", 0))) if "tile" in c else ""
+            if "crash" not in r and str(r.get("note", "")).startswith("hang"):
+                r["crash"] = "timeout"                 # reported by the harness's own per-case watchdog
             ctx.violation("harness %s %sways=%s roles=%s" % (r.get("crash", "exception"), tile, json.dumps(c["ways"], separators=(",", ":")),
                                                              json.dumps(c["roles"])), {"case": c, "result": r}, what)
             continue
